@@ -5,6 +5,8 @@ import (
 	"math/rand"
 	"testing"
 
+	"github.com/thanos-io/thanos/pkg/store/storepb"
+
 	"verif/harness/vt"
 	"verif/harness/world"
 )
@@ -12,8 +14,11 @@ import (
 // TestC08: stores present external labels consistently.
 //
 // Every case = one world (a real TSDB head behind store.NewTSDBStore, real blocks behind
-// store.NewBucketStore, a ProxyStore over both) and one Series request (selectors, replica labels
-// to drop, time range); cfg.frame = 1 makes the TSDB store put every chunk into its own frame.
+// store.NewBucketStore, a ProxyStore over both; phase 2: a PrometheusStore in front of the real
+// Prometheus API over the same head = sidecar, and a MultiTSDB with two tenants behind the
+// receiver's proxy) and one Series request (selectors, replica labels to drop, time range);
+// cfg.frame = 1 makes the TSDB store put every chunk into its own frame, cfg.skip sets SkipChunks,
+// cfg.hints adds query hints, cfg.promold / cfg.samples select the Prometheus generation.
 // Recorded per store: gRPC code and the label list of every frame in arrival order. C08Trace.tla
 // judges them with the property-level operators of StoreAPIs.tla.
 func TestC08(t *testing.T) {
@@ -22,7 +27,8 @@ func TestC08(t *testing.T) {
 	defer cache.close()
 	gen := func(yield func(vt.Case)) {
 		cfg := func(rnd *rand.Rand) map[string]any {
-			return map[string]any{"frame": []int{0, 1, 1, 200}[rnd.Intn(4)], "rbatch": []int{0, 0, 1, 2}[rnd.Intn(4)]}
+			return map[string]any{"frame": []int{0, 1, 1, 200}[rnd.Intn(4)], "rbatch": []int{0, 0, 1, 2}[rnd.Intn(4)],
+				"skip": rnd.Intn(4) == 0, "hints": rnd.Intn(3) == 0, "promold": rnd.Intn(3) == 0, "samples": rnd.Intn(3) == 0}
 		}
 		genWorldCases(t, rnd, vt.Pick(25, 200), vt.Pick(15, 100), vt.Pick(40, 30), vt.Pick(25, 20), cfg, yield)
 	}
@@ -40,12 +46,25 @@ func TestC08(t *testing.T) {
 			t.Fatalf("bucket store: %v", err)
 		}
 		px := b.proxy(ts, bs)
+		ps, err := b.promStore(vt.Bool(cfg["promold"]), vt.Bool(cfg["samples"]))
+		if err != nil {
+			t.Fatalf("prometheus store: %v", err)
+		}
+		rc, err := b.receiver()
+		if err != nil {
+			t.Fatalf("receiver: %v", err)
+		}
 		ctx := context.Background()
 		rb := vt.Int(cfg["rbatch"])
+		sr := func() *storepb.SeriesRequest {
+			return seriesReqOpt(req, rb, vt.Bool(cfg["skip"]), vt.Bool(cfg["hints"]))
+		}
 		return vt.Event{
-			"tsdb":   seriesObs(world.CallSeries(ctx, ts, seriesReq(req, rb))),
-			"bucket": seriesObs(world.CallSeries(ctx, bs, seriesReq(req, rb))),
-			"proxy":  seriesObs(world.CallSeries(ctx, px, seriesReq(req, rb))),
+			"tsdb":   seriesObs(world.CallSeries(ctx, ts, sr())),
+			"bucket": seriesObs(world.CallSeries(ctx, bs, sr())),
+			"proxy":  seriesObs(world.CallSeries(ctx, px, sr())),
+			"prom":   seriesObs(world.CallSeries(ctx, ps, sr())),
+			"recv":   seriesObs(world.CallSeries(ctx, rc.Proxy, sr())),
 		}
 	})
 }
